@@ -345,9 +345,9 @@ def run_book(spec):
 
 
 FAMILIES = [
-    Family('rename', rename_case, run_rename, quick=200, thorough=6000),
-    Family('embed', embed_case, run_embed, quick=120, thorough=4000),
-    Family('book-embed', book_case, run_book, quick=60, thorough=1500),
+    Family('rename', rename_case, run_rename, quick=320, thorough=6000),
+    Family('embed', embed_case, run_embed, quick=240, thorough=4000),
+    Family('book-embed', book_case, run_book, quick=96, thorough=1500),
 ]
 
 MANIFEST_INFO = {
